@@ -365,16 +365,17 @@ def NotLast (w : World) (a : Acc) : Prop :=
   ddLen ((w.file a.file).dd a.slot) + ddOff ((w.file a.file).dd a.slot) ≠ (w.file a.file).endOff
 
 /-- side conditions under which one call is covered by the refinement theorem. Each excluded situation is either outside
-    the engine's scope or one of the defects listed in REPORT.md (F18 `Htrunc` on a linked-block element, F19 promotion
-    while another id is open on the element, F20 stale bytes beyond a recomputed `f_end_off`, F24 two ids on an element
-    without length). -/
+    the engine's scope or one of the open findings (F19 promotion while another id is open on the element, F20 stale
+    bytes beyond a recomputed `f_end_off` that `HPgetdiskblock` hands out again, F24 two ids on an element without
+    length; see `H4/Props/C01.lean` section 6 and known_findings.json). -/
 def OpSafe (w : World) : Op → Prop
   | .open fi mode _ =>
     NoHandleIn w fi ∧
     ((w.file fi).present = true → mode ≠ DFACC_CREATE →
       -- the file was closed by `Hclose`: nothing is waiting to be flushed
       ((w.file fi).dirtyEnd || (w.file fi).blkDirty.any id) = false ∧
-      -- F20: after `Hopen` nothing but zeros may lie beyond the recomputed `f_end_off`
+      -- F20: after `Hopen` nothing but zeros may lie beyond the recomputed `f_end_off` (998a325 repaired the in-place
+      -- growth of a contiguous element only; new linked blocks and reserved lengths still land on the old bytes)
       ∀ k, endOffOf (w.file fi).ndds (w.file fi).blkOff (w.file fi).mem ≤ k → rd (w.file fi).disk k = 0)
   | .close fi => NoHandleIn w fi
   | .startaccess h fi tag ref _ _ =>
@@ -401,7 +402,6 @@ def OpSafe (w : World) : Op → Prop
       (bs.length : Int) + a.posn > ddLen ((w.file a.file).dd a.slot) → NotLast w a → Alone w h) ∧
     -- F24
     (∀ a, w.acc h = some a → a.newElem = true → Alone w h)
-  | .trunc h _ => ∀ a, w.acc h = some a → a.special = false      -- F18
   | .deldd fi tag ref => UserKey (tag, ref) ∧ ∀ s, (w.file fi).select tag ref = some s → NoHandleOn w fi s
   | _ => True
 
